@@ -30,6 +30,11 @@ Section Orc.
     else if is_cmd cmd "analyze_nodes" then
       Some (sx_of_verdict (the_analyze_nodes (sx_str (a 0%nat), sx_bool (a 1%nat))
                              (opt_of_sx (fun x => map tree_of_sx (sx_list x)) (a 2%nat))))
+    else if is_cmd cmd "analyze_text" then
+      (* the whole of analyze(): prelude in the model, the parser an oracle *)
+      let o_parse (text : str) : option (list tree) := opt_of_sx (fun x => map tree_of_sx (sx_list x)) (orc (q "parse" [A text])) in
+      Some (sx_of_verdict (analyze_text o_simple o_astr o_mredir o_cdres o_injrisk o_rulematch o_parse
+                             (sx_str (a 0%nat), sx_bool (a 1%nat)) (sx_str (a 2%nat))))
     else if is_cmd cmd "scan_raw" then Some (sx_of_raw (scan_raw (sx_str (a 0%nat))))
     else if is_cmd cmd "fn" then
       (* function-level ties: (fn <name> (s1 s2 ...)) applies one pure helper of the model to every string *)
@@ -42,6 +47,7 @@ Section Orc.
       else if str_eqb name $"is_assignment" then Some (L (map (fun s => sx_of_bool (is_assignment s)) strs))
       else if str_eqb name $"strip_fd_prefix" then Some (L (map (fun s => A (strip_fd_prefix s)) strs))
       else if str_eqb name $"sets_execution_var" then Some (L (map (fun s => sx_of_bool (sets_execution_var s)) strs))
+      else if str_eqb name $"analyze_prelude" then Some (L (map (fun s => match analyze_prelude s with Some t => L [A t] | None => L [] end) strs))
       else if str_eqb name $"plain_raw" then Some (L (map (fun s => sx_of_bool (plain_raw s)) strs))
       else if str_eqb name $"scan_raw" then Some (L (map (fun s => sx_of_raw (scan_raw s)) strs))
       else None
